@@ -195,9 +195,9 @@ def step (st : St) (toks : List String) : St × String :=
       match ShellOp.Worker.step st.cfg st.s (.startRead 0 q) with
       | none => (st, "disabled " ++ obs st.s)
       | some s1 =>
-        match ShellOp.Worker.step st.cfg s1 (.startSpawn 0) with
+        match ShellOp.Worker.step st.cfg s1 (.startSpawn 0 q) with
         | none => ({ st with s := s1 }, obs s1)           -- already started / no handler
-        | some s2 => match ShellOp.Worker.step st.cfg s2 (.startWrite 0) with
+        | some s2 => match ShellOp.Worker.step st.cfg s2 (.startWrite 0 q) with
           | some s3 => ({ st with s := s3 }, obs s3)
           | none => (st, "disabled " ++ obs st.s)
     | none => (st, "bad-op")
